@@ -307,6 +307,10 @@ class CutSpace(Subspace):
             grid = [0, 1, 2, 5, 10]
         elif kind == "float":
             grid = [0.5, 1.0, 1.25, 2.0, 10.25, 10.3]
+        elif kind in ("int8", "uint8", "int16"):
+            # narrow value dtypes with edges inside AND outside their range (catch-all top / bottom edges)
+            grid = {"int8": [-200, 0, 100, 127, 200], "uint8": [-1, 0, 100, 255, 999],
+                    "int16": [-40000, 0, 32767, 40000, 100000]}[kind]
         elif kind == "float0":
             grid = [0.0, 1.0, 2.0, 5.0]
         else:  # timedelta (seconds)
@@ -333,7 +337,15 @@ class CutSpace(Subspace):
         kind, bins = case["kind"], case["bins"]
         res.nontrivial = len(bins) > 1
         edges = sorted(bins)
-        if kind == "int":
+        narrow = kind if kind in ("int8", "uint8", "int16") else None
+        if narrow:
+            ii = np.iinfo(narrow)
+            probes = sorted({min(max(e + d, ii.min), ii.max) for e in edges for d in (-2, -1, 0, 1, 2)}
+                            | {ii.min, ii.max, 0})
+            xs = [np.array(probes, dtype=narrow), pd.Series(np.array(probes, dtype=narrow), name="x")]
+            binsarg = [bins, np.array(bins)]
+            kind = "int"
+        elif kind == "int":
             probes = sorted({e + d for e in edges for d in (-2, -1, 0, 1, 2)})
             xs = [np.array(probes, dtype="i8"), pd.Series(probes, index=[f"r{i}" for i in range(len(probes))], name="x")]
             binsarg = [bins, np.array(bins)]
@@ -417,6 +429,8 @@ def subspaces(tier, seed):
     for dt in ("i1", "i4", "u1", "i8", "f4"):
         for shape in ((2, 2), (3, 2), (2, 3)):
             sp.append(Reduce2D(f"reducers-2d-{dt}-{shape[0]}x{shape[1]}", shape, seed=seed, dtype=dt))
+    for kk in ("int8", "uint8", "int16"):
+        sp.append(CutSpace(f"pretty_cut-{kk}", kk, seed=seed))
     for r, c in ((1, 1), (2, 1), (1, 2), (2, 2), (3, 2)) + (() if q else ((2, 3), (3, 3))):
         sp.append(DotSpace(f"nb_dot-{r}x{c}", r, c))
     for r in (1, 2, 3, 4):
